@@ -46,6 +46,8 @@ RowOK(line, texts) ==
   /\ Len(line) = W
   /\ \A i \in 1 .. W : (i \in PlusPos) => line[i] = BAR
   /\ \A c \in 1 .. NC : Fits(texts[c], Width(c), SubSeq(line, Pos[c] + 1, Pos[c + 1] - 1))
+(* a value is cut ("too long") only in a column that already has its maximal width *)
+CutOnlyAtMax(texts) == \A c \in 1 .. NC : Len(texts[c]) > Width(c) => Width(c) = C.cols[c].max
 Framed(line, text) == /\ Len(line) = W /\ line[1] = BAR /\ line[W] = BAR /\ Fits(text, W - 2, SubSeq(line, 2, W - 1))
 
 (* expected body: records with a break line wherever the break-by key changes *)
@@ -83,7 +85,9 @@ Border2 == /\ Have /\ phase = "border2"
            /\ IF L(ln) = Border THEN Go("body") /\ UNCHANGED bi ELSE Reject("second-border")
 BodyLine == /\ Have /\ phase = "body" /\ bi <= Len(Visible)
             /\ LET e == Visible[bi] IN
-               IF e.k = "rec" THEN (IF RowOK(L(ln), C.cells[e.r]) THEN Go("body") /\ bi' = bi + 1 ELSE Reject("record-line"))
+               IF e.k = "rec" THEN (IF ~RowOK(L(ln), C.cells[e.r]) THEN Reject("record-line")
+                                    ELSE IF ~CutOnlyAtMax(C.cells[e.r]) THEN Reject("value-cut-in-a-column-below-its-maximal-width")
+                                    ELSE Go("body") /\ bi' = bi + 1)
                ELSE IF e.k = "break" THEN (IF Framed(L(ln), <<>>) THEN Go("body") /\ bi' = bi + 1 ELSE Reject("break-line"))
                ELSE (IF Framed(L(ln), SkipText(e.n)) THEN Go("body") /\ bi' = bi + 1 ELSE Reject("skipped-records-line"))
 Border3 == /\ Have /\ phase = "body" /\ bi > Len(Visible)
